@@ -206,9 +206,13 @@ func (s *ServerDnsListener) onMessage(m *dns.Msg, remoteAddr net.Addr) (*dns.Msg
 			if err != nil {
 				return nil, err
 			}
-			user, userErr = s.validateAndGetUser(userId, remoteAddr)
-			if user != nil {
-				serializer = user.Serializer
+			if c.NeedsUserId {
+				// Commands without a user id (version handshake, codec probe) decode to id 0: looking that
+				// up would apply whatever session holds, or held, slot 0 to an unrelated request.
+				user, userErr = s.validateAndGetUser(userId, remoteAddr)
+				if user != nil {
+					serializer = user.Serializer
+				}
 			}
 			cmd = &c
 			break
